@@ -77,6 +77,7 @@ var (
 	onceAssets sync.Once
 	theText    *canvas.Text
 	theImage   image.Image
+	subImage   image.Image // the same pixels as a sub-image whose bounds do not start at the origin
 )
 
 func repoDir() string {
@@ -98,6 +99,10 @@ func assets() {
 		img.Set(0, 0, colRed)
 		img.Set(2, 1, colBlue)
 		theImage = img
+		big := image.NewNRGBA(image.Rect(0, 0, 7, 5))
+		big.Set(2, 1, colRed)
+		big.Set(4, 2, colBlue)
+		subImage = big.SubImage(image.Rect(2, 1, 2+imgW, 1+imgH))
 	})
 }
 
@@ -210,6 +215,7 @@ func alphabet() []letter {
 		drawPaths("DrawPath(0,0, M0 0L0.5 0, M0 0L4 0L4 1)", 0, 0, p3Data, p2Data),
 		{"DrawText(2,3,\"Hi\")", func(x *exec) { x.ctx.DrawText(2, 3, theText) }, func(m *mrun) { m.drawText(2, 3) }},
 		{"DrawImage(1,1.5, 3x2px, 2px/mm)", func(x *exec) { x.ctx.DrawImage(1, 1.5, theImage, canvas.DPMM(imgRes)) }, func(m *mrun) { m.drawImage(1, 1.5, imgW, imgH, imgRes) }},
+		{"DrawImage(2,0.5, 3x2px sub-image with bounds from (2,1), 2px/mm)", func(x *exec) { x.ctx.DrawImage(2, 0.5, subImage, canvas.DPMM(imgRes)) }, func(m *mrun) { m.drawImage(2, 0.5, imgW, imgH, imgRes) }},
 		{"MoveTo(1,1)", func(x *exec) { x.ctx.MoveTo(1, 1) }, func(m *mrun) { m.pend.MoveTo(1, 1) }},
 		{"LineTo(4,0)", func(x *exec) { x.ctx.LineTo(4, 0) }, func(m *mrun) { m.pend.LineTo(4, 0) }},
 		{"LineTo(4,3)", func(x *exec) { x.ctx.LineTo(4, 3) }, func(m *mrun) { m.pend.LineTo(4, 3) }},
